@@ -50,6 +50,19 @@ fn forms(decl: &str) -> Vec<Vec<u8>> {
     out
 }
 
+/// case variants of character program data: upper, lower, alternating
+fn case_forms(word: &str) -> Vec<Vec<u8>> {
+    let alt: String =
+        word.chars().enumerate().map(|(i, c)| if i % 2 == 0 { c.to_ascii_lowercase() } else { c.to_ascii_uppercase() }).collect();
+    let mut out: Vec<Vec<u8>> = vec![];
+    for f in [word.to_ascii_uppercase(), word.to_ascii_lowercase(), alt] {
+        if !out.contains(&f.as_bytes().to_vec()) {
+            out.push(f.into_bytes());
+        }
+    }
+    out
+}
+
 /// Template language: `{Name}` mnemonic, `_` optional white space slot,
 /// `~` mandatory white space slot, `$` terminator, everything else literal.
 fn template(t: &str) -> Vec<Piece> {
@@ -67,7 +80,12 @@ fn template(t: &str) -> Vec<Piece> {
             b'{' => {
                 flush(&mut lit, &mut out);
                 let end = t[i..].find('}').unwrap() + i;
-                out.push(Piece::Mn(forms(&t[i + 1..end])));
+                let name = &t[i + 1..end];
+                out.push(Piece::Mn(match name.strip_prefix('=') {
+                    // character data (a program mnemonic in parameter position): case variants only
+                    Some(chars) => case_forms(chars),
+                    None => forms(name),
+                }));
                 i = end;
             }
             b'_' => {
@@ -95,7 +113,8 @@ const TEMPLATES: &[&str] = &[
     "_{SYSTem}:{VALue}?_$",
     "_{VOLTage}:{LEVel}~1.5_$",
     "_{SOURce}:{VOLTage}:{LEVel}~-2.5E1_$",
-    "_{MEASure}:{DATA}~'a b'_,_#12xy_,_ON_$",
+    "_{MEASure}:{DATA}~'a b'_,_#12xy_,_{=ON}_$",
+    "_{MEASure}:{DATA}~''_,_#11,_,_{=OFF}_$",
     "_{*RST}_$",
     "_{*IDN}?_$",
     "_{CONFigure}:{CHannel2}~-5_,_#H1F_$",
@@ -464,7 +483,7 @@ fn main() {
     out.cov("skipped_crashing_executions", t.crashed);
     out.cov("samples", json!(["syst:value\\t5\\r\\n", " MEASURE:data  'a b' ,#12xy, ON\\n", "sOuRcE:VOLT:level 2 ; lev 3;LEVEL?\\n"]));
     out.assumptions = vec![
-        "character data such as ON is not case-varied (governed by C03); white space around ':' is not varied (not listed by the property)".into(),
+        "character data (ON, OFF) is varied in case only; white space around ':' is not varied (not listed by the property)".into(),
     ];
     out.wall_s = t0.elapsed().as_secs_f64();
     out.write(&args);
